@@ -402,6 +402,13 @@ def failureLookup (H : Bytes → UInt64) (fs : FStore) (name : Bytes) (qtype qcl
   | some e => if e.active then some e else firstZone H fs qclass (failureZones n.length n)
   | none => firstZone H fs qclass (failureZones n.length n)
 
+/-- `Store.LookupFailure`: the Store-level wrapper every decoded route goes through
+(`ServeDNS`, the follower re-check, `GetWithContext`): one lookup, in the request's own CD
+partition and for the audience handed in — no second probe of any kind. -/
+def storeLookupFailure (H : Bytes → UInt64) (fs : FStore) (name : Bytes) (qtype qclass : UInt16) (cd : Bool)
+    (scope : Scope) : Option FEntry :=
+  failureLookup H fs name qtype qclass cd scope
+
 def firstZoneWire (H : Bytes → UInt64) (fs : FStore) (qclass : UInt16) : List Bytes → Option FEntry
   | [] => none
   | z :: t =>
@@ -615,6 +622,18 @@ def resetQuestion (H : Bytes → UInt64) (s : AFStore) (name : Bytes) (qtype qcl
 def purgeCuts (cs : List Cut) (name : Bytes) (qclass : UInt16) : List Cut :=
   let cands := cutSuffixes (canonicalName name)
   cs.filter fun c => !(cands.contains c.name && c.qclass == qclass)
+
+/-- the loop of `nxDomainCutCache.purge`, candidate by candidate: `entries[{candidate, qclass}]`
+is removed when present (`removeEntryLocked`) and the walk GOES ON to the next suffix — it does
+not stop at the closest covering cut. -/
+def purgeCutsWalk (cs : List Cut) (qclass : UInt16) : List Bytes → List Cut
+  | [] => cs
+  | cand :: rest => purgeCutsWalk (cs.filter fun c => !(c.name == cand && c.qclass == qclass)) qclass rest
+
+/-- `nxDomainCutCache.purge` as written: `name := CanonicalName(q.Name)`, then the walk over
+`dnsname.Suffixes(name)`. -/
+def purgeCutsLoop (cs : List Cut) (name : Bytes) (qclass : UInt16) : List Cut :=
+  purgeCutsWalk cs qclass (cutSuffixes (canonicalName name))
 
 /-- `Store.RecordFailure` → `FailureCache.RecordQuestion` for a live cache: the state is
 filed under the hash of (canonical name, type, class, CD, normalised audience); an
